@@ -49,6 +49,22 @@ func init() {
 				}
 			}
 		}},
+		Stream{"req.androidKey.schemaEncoding", func(c *Ctx) {
+			// key descriptions encoded as the published schema says, by the harness's independent DER encoder
+			n := c.N(4, 60)
+			for i := 0; i < n; i++ {
+				for _, dv := range []string{"ak.schemaNull.allApps", "ak.schemaNull.originAfterNull"} {
+					attestCase(c, "req.android-key."+dv, "android-key", []string{dv}, i%2 == 1)
+				}
+				s := newRegSpec(c.R, "android-key", pick(c.R, credAlgsFor("android-key")))
+				s.Dev["ak.schemaStyle.honest"] = true
+				b := buildRegistration(c.R, s)
+				op := b.AttestOp("android-key")
+				op["_dev"] = "ak.schemaStyle.honest"
+				op["_expectOK"] = true
+				executors["attest"](c, "req.android-key.ak.schemaStyle.honest", op)
+			}
+		}},
 		Stream{"req.honest", func(c *Ctx) {
 			n := c.N(3, 60)
 			for i := 0; i < n; i++ {
